@@ -175,13 +175,14 @@ def run(ctx: Ctx) -> None:
         (tree / "pkg" / "__init__.py").write_text("")
         (tree / "pkg" / "m.py").write_text("z = str('')\n")
         (tree / "deep.py").write_text("x = " + "[" * 80 + "]" * 80 + "\n")
+        (tree / "longsum.py").write_text("rows = []\nrows.append(1)\nrows.append(2)\ntotal = 1" + " + 1" * 700 + "\n")     # refurb's traversal gives up on it (RecursionError, swallowed)
         (tree / "badplugin.py").write_text("from dataclasses import dataclass\nfrom refurb.error import Error\n@dataclass\nclass ErrorInfo(Error):\n    code = 900\n    prefix = 'ZZZ'\n    msg: str = 'm'\ndef check(a, b, c, d):\n    pass\n")
         (tree / "readonly.txt").write_text("keep me\n")
         (tree / "conf").mkdir()
         (tree / "conf" / "refurb.toml").write_text("[tool.refurb]\nenable_all = true\n")
         scen = [("config-elsewhere", ["diag.py", "--config-file", "conf/refurb.toml"]), ("clean", ["clean.py"]), ("diagnostics", ["diag.py", "pkg"]), ("missing-file", ["nope.py"]), ("syntax-error", ["syntax.py", "diag.py"]),
                 ("empty-dir", ["emptydir"]), ("invalid-plugin", ["diag.py", "--load", "badplugin"]), ("unimportable-plugin", ["diag.py", "--load", "no_such_plugin_mod"]),
-                ("deep", ["deep.py"]), ("github-format", ["diag.py", "--format", "github"]), ("explain", ["--explain", "FURB123"]), ("verbose", ["clean.py", "--verbose", "--enable-all"])]
+                ("deep", ["deep.py"]), ("recursion-limit", ["longsum.py", "diag.py"]), ("recursion-limit-last", ["clean.py", "longsum.py"]), ("same-file-twice", ["diag.py", "diag.py", "pkg/m.py"]), ("github-format", ["diag.py", "--format", "github"]), ("explain", ["--explain", "FURB123"]), ("verbose", ["clean.py", "--verbose", "--enable-all"])]
         for name, args in scen:
             for timing in (False, True):
                 if timing and name == "explain":
@@ -211,7 +212,7 @@ def run(ctx: Ctx) -> None:
                     if not ok:
                         ctx.report(f"stats-malformed:{name}", f"--timing-stats file of scenario {name}: {why}", {"argv": argv, "content": stats.read_text()[:500]})
                     stats.unlink()
-                elif timing and name in ("clean", "diagnostics", "deep", "github-format", "verbose", "config-elsewhere"):
+                elif timing and name in ("clean", "diagnostics", "deep", "github-format", "verbose", "config-elsewhere", "recursion-limit", "recursion-limit-last"):
                     ctx.report(f"stats-missing:{name}", f"--timing-stats file was not written in scenario {name}", {"argv": argv, "stdout": out[-300:]})
     finally:
         shutil.rmtree(td, ignore_errors=True)
@@ -232,7 +233,9 @@ def stats_ok(path: Path, scen: str) -> tuple[bool, str]:
     for k in keys[1:]:
         if not isinstance(d[k], dict) or not all(isinstance(v, int) and not isinstance(v, bool) for v in d[k].values()):
             return False, f"{k} is not a map of integers"
-    want = {"clean": {"clean"}, "diagnostics": {"diag", "pkg", "pkg.m"}, "deep": {"deep"}, "github-format": {"diag"}, "verbose": {"clean"}}.get(scen)
-    if want and not want <= set(d[keys[2]]):
-        return False, f"no entry for modules {sorted(want - set(d[keys[2]]))}"
+    want = {"clean": {"clean"}, "diagnostics": {"diag", "pkg", "pkg.m"}, "deep": {"deep"}, "github-format": {"diag"}, "verbose": {"clean"},
+            "recursion-limit": {"longsum", "diag"}, "recursion-limit-last": {"clean", "longsum"}, "config-elsewhere": {"diag"}}.get(scen)
+    for k in keys[1:]:
+        if want and not want <= set(d[k]):
+            return False, f"{k} has no entry for the checked modules {sorted(want - set(d[k]))}"
     return True, ""
